@@ -419,3 +419,85 @@ def resolve_locals(fn: ast.AST, expr: ast.AST, depth: int = 4) -> ast.AST:
             break
         cur = nxt
     return ast.fix_missing_locations(cur)
+
+
+# --------------------------------------------------------------------- G7
+def _find_tag(e: ast.AST) -> Optional[str]:
+    """the XML tag of `<elem>.find("TAG")` / findtext / iterfind / get inside e (first one)"""
+    for x in ast.walk(e):
+        if isinstance(x, ast.Call) and isinstance(x.func, ast.Attribute) and x.func.attr in (
+                "find", "findtext", "iterfind", "findall") and x.args and isinstance(
+                    x.args[0], ast.Constant) and isinstance(x.args[0].value, str):
+            return x.args[0].value
+    return None
+
+
+def _presence(t: ast.AST, pol: bool) -> Optional[bool]:
+    """does taking the branch (t, pol) mean that the element looked up in t is present?"""
+    if isinstance(t, ast.UnaryOp) and isinstance(t.op, ast.Not):
+        return _presence(t.operand, not pol)
+    if isinstance(t, ast.Compare) and len(t.ops) == 1 and isinstance(
+            t.comparators[0], ast.Constant) and t.comparators[0].value is None:
+        if isinstance(t.ops[0], (ast.IsNot, ast.NotEq)):
+            return pol
+        if isinstance(t.ops[0], (ast.Is, ast.Eq)):
+            return not pol
+        return None
+    if isinstance(t, (ast.NamedExpr, ast.Call, ast.Name)):
+        return pol
+    return None
+
+
+def g7_independent_elements(prog: Program, run: Run, rule: str, patterns: Sequence[str],
+                            choices: Sequence[Set[str]] = ()) -> int:
+    """In a parser (`from_et`), whether the element that feeds one field is looked for must not
+    depend on the *absence* of an element that feeds a different field: `if find(A): a = … elif
+    find(B): b = …` silently drops B whenever A is present. An elif chain that feeds ONE field
+    from alternative spellings (VALUE / SIMPLE-VALUE / COMPLEX-VALUE) is a choice and is fine, as
+    are the tag sets listed in ``choices`` (xsd:choice of the schema)."""
+    n = 0
+    for f in funcs_in(prog, patterns):
+        if not f.name.endswith("from_et"):
+            continue
+        cfg = CFG(f.node)
+        # field variable -> tags it is fed from
+        feeds = []
+        for x in walk_no_nested(f.node):
+            if isinstance(x, (ast.Assign, ast.AnnAssign)) and getattr(x, "value", None) is not None:
+                tg = x.targets[0] if isinstance(x, ast.Assign) else x.target
+                if not isinstance(tg, ast.Name):
+                    continue
+                tag = _find_tag(x.value)
+                if tag is None:
+                    # value read from an element bound by a walrus in the controlling test
+                    names = {y.id for y in ast.walk(x.value) if isinstance(y, ast.Name)}
+                    for t, pol in cfg.branch_conditions(cfg.node_of(x)):
+                        for w in ast.walk(t):
+                            if isinstance(w, ast.NamedExpr) and isinstance(
+                                    w.target, ast.Name) and w.target.id in names and \
+                                    _presence(t, pol) is True:
+                                tag = _find_tag(w.value)
+                if tag is not None:
+                    feeds.append((tg.id, tag, x))
+        for var, tag, st in feeds:
+            for t, pol in cfg.branch_conditions(cfg.node_of(st)):
+                if _presence(t, pol) is not False:
+                    continue
+                other = _find_tag(t)
+                if other is None or other == tag:
+                    continue
+                owners = {v for v, tg_, _s in feeds if tg_ == other}
+                if not owners or var in owners:
+                    continue  # alternative spellings of the same field
+                if any({tag, other} <= c for c in choices):
+                    continue
+                n += 1
+                run.violation(rule, f"{f.module.rel}:{f.qual}", f"element-{tag}-skipped-when-{other}",
+                              f"`{stmt_key(st)}`: <{tag}> (field `{var}`) is only read when "
+                              f"<{other}> (field `{sorted(owners)[0]}`) is absent: an element "
+                              "that carries both loses the second one",
+                              f"{f.module.rel}:{st.lineno}", stmt_key(st))
+        n += 1
+        run.ok(rule, f"{f.module.rel}:{f.qual}", f"{len(feeds)} element reads, none conditional "
+               "on the absence of another field's element", f.loc)
+    return n
